@@ -16,7 +16,7 @@ def _load(prop):
     return importlib.import_module("mc.props.%s" % prop.lower())
 
 
-def _write_replay(prop, sub, tier, seed, v, point):
+def _write_replay(prop, sub, tier, seed, v, point, prefix=None):
     case = v.get("case")
     if case is None:
         case = point
@@ -28,6 +28,9 @@ def _write_replay(prop, sub, tier, seed, v, point):
         "tags": v["tags"],
         "detail": v["detail"],
         "case": core.jsonable(case),
+        # fallback for violations that depend on process-level state left by earlier points of the
+        # same chunk (one fresh child per chunk): re-evaluate points lo..index in order
+        "prefix": prefix,
     }
     h = core.sig_hash([prop, sub, v["tags"], doc["case"]])
     d = os.environ.get("VERIF_REPLAY_DIR") or os.path.join(core.HERE, "replays")
@@ -67,6 +70,24 @@ def do_replay(prop, path, quiet=False):
         return 2
     want = core.sig_hash(doc["tags"])
     same = [v for v in r["viol"] if core.sig_hash(v["tags"]) == want]
+    if not same and doc.get("prefix") and doc.get("tier") and not quiet_prefix_disabled():
+        # not reproducible in isolation: replay the history the point had in its chunk
+        pf = doc["prefix"]
+        pts = sc[0].points
+        if 0 <= pf["lo"] <= pf["index"] < len(pts):
+            rr = None
+            for i in range(pf["lo"], pf["index"] + 1):
+                try:
+                    rr = sc[0].fn(pts[i])
+                except Exception as e:  # noqa
+                    rr = {"viol": []}
+            hist = [v for v in (rr or {}).get("viol", []) if core.sig_hash(v["tags"]) == want]
+            if hist:
+                same = hist
+                r = rr
+                if not quiet:
+                    print("(reproduced only together with the %d earlier point(s) of its chunk: the "
+                          "violation depends on process-level state)" % (pf["index"] - pf["lo"]))
     if not quiet:
         print("replaying %s / %s" % (prop, doc["check"]))
         print("case: %s" % json.dumps(doc["case"])[:1500])
@@ -83,6 +104,10 @@ def do_replay(prop, path, quiet=False):
         return 1
     print("REPLAY property=%s reproduced=no" % prop)
     return 0
+
+
+def quiet_prefix_disabled():
+    return os.environ.get("VERIF_NO_PREFIX_REPLAY") == "1"
 
 
 def _accepts_only(mod):
@@ -131,7 +156,7 @@ def main(argv):
         ev = nt = st = tr = im = 0
         obs = set()
         nviol = 0
-        for p, r in zip(sc.points, res):
+        for pidx, (p, r) in enumerate(zip(sc.points, res)):
             if "harness_error" in r:
                 harness_errors.append(r["harness_error"])
                 continue
@@ -157,7 +182,8 @@ def main(argv):
                 k = (sc.name, core.sig_hash(v["tags"]))
                 g = groups.get(k)
                 if g is None:
-                    groups[k] = dict(v=v, point=p, count=1, sub=sc.name)
+                    groups[k] = dict(v=v, point=p, count=1, sub=sc.name, index=pidx,
+                                     lo=r.get("_chunk_lo", pidx))
                 else:
                     g["count"] += 1
         if not sc.exhaustive:
@@ -199,7 +225,8 @@ def main(argv):
         if i >= MAX_REPORT:
             print("... %d further violation signatures not listed" % (len(new) - MAX_REPORT))
             break
-        path = _write_replay(prop, g["sub"], a.tier, seed, g["v"], g["point"])
+        path = _write_replay(prop, g["sub"], a.tier, seed, g["v"], g["point"],
+                             prefix=dict(lo=g["lo"], index=g["index"]))
         if not a.no_confirm and i < 5:
             outs = _confirm(prop, path)
             if not (outs[0] == outs[1] and outs[0][0] == 1):
